@@ -351,7 +351,9 @@ class ReservablePriorityReqFilterStore(FilterStore):
 
                   #reserving the item to preserved item order by adding the reserve_get event to a list(the index position of event= index position of reserved item)
                   self.reserved_events.append(event)
-                  break
+                  # tell _trigger_reserve_get that this request was served, so that it goes on
+                  # to the request that is next in line (its filter may match another item)
+                  return True
 
 
 
